@@ -85,6 +85,7 @@ def errKind : Err → String
   | .faDiffLen => "fasta-difflen"
   | .faInvalid => "fasta-invalid"
   | .faEmpty => "fasta-empty"
+  | .tooLong => "toolong"
 
 def renderFaD (a : List Nat × FaRecord) : String :=
   "A " ++ rle a.1 ++ " " ++ rle a.2.id ++ " " ++ rle a.2.desc ++ " " ++ rle a.2.seq ++ " " ++ toString a.2.idx
@@ -151,7 +152,7 @@ def specVerdict (c : Case) (text : List Nat) (go : String) : String :=
         let expA := (sortByKey (fa.zipIdx.map fun p => (p.1.1, p))).map fun p =>
           "A " ++ rle p.1 ++ " " ++ rle p.1 ++ " " ++ rle p.2.1.2.1 ++ " " ++ rle (p.2.1.2.2.map upperB) ++ " " ++ toString p.2.2
         let longLine := (splitLinesAux text []).any fun l => l.length ≥ maxToken
-        if longLine && goF.length < rows.length then "fail:file-silently-truncated-at-long-line"
+        if longLine then "fail:over-long-line-not-reported"
         else if c.has "ver" && !lines.contains ("V " ++ rle ver) then "fail:version-does-not-read-back"
         else if c.has "fa" && goA != expA then "fail:fasta-does-not-read-back"
         else if goF == rows.map (fun r => renderFeatureD r.toFeatureRaw) then "ok"
